@@ -234,6 +234,14 @@ theorem C20_categories :
   intro r hr
   simpa using List.all_eq_true.mp cert r hr
 
+/-- Categorisation is the same on every call: the translator's purity check of
+GetAuditEventType (it and its callees read only package variables that nothing writes, and use
+no sync/atomic/time/rand/os) passed on the current source, and evaluating it over all codes in
+two different orders gave one answer per code. -/
+theorem C20_category_deterministic :
+    LA.Gen.EventTypes.pureFn = true ∧ LA.Gen.EventTypes.orderWitness = none := by
+  decide
+
 /-- non-vacuity: the tables are not empty and a concrete round trip. -/
 example : LA.Gen.MsgTypes.typeToName.length > 200 ∧ LA.Gen.Errno.errnoToName.length > 100 ∧
     LA.Gen.Syscalls.tables.length = 9 ∧ LA.Gen.NormNames.syscalls.length > 100 := by decide +kernel
